@@ -252,13 +252,13 @@ pub fn scenarios(thorough: bool) -> Vec<(Scenario, usize, bool)> {
     // (scenario, alphabet size, with cancellation enumeration)
     let mut v = Vec::new();
     let depth = if thorough { 6 } else { 5 };
-    let k = if thorough { 7 } else { 6 };
+    let k = if thorough { 7 } else { 5 };
     for layout in 0..3 {
         for limits in 0..3 {
             for step in [0.05, 0.3, 2.5] {
                 for max_try in 0..=depth {
                     // the deepest budgets only with the coarse steps (cost)
-                    if step == 0.05 && max_try > depth - 1 {
+                    if step == 0.05 && max_try > depth - 2 {
                         continue;
                     }
                     v.push((Scenario { layout, limits, step, max_try }, k, max_try <= 3));
